@@ -785,6 +785,9 @@ def check_C12(A, R, tier):
     # R12.w (= R8.4): a job that ends with an output has both own records written on every path
     pair_rule(A, R, "R12.w")
     rule_no_bulk_removal(A, R, "R12.k")
+    # R12.e (= R11.1): a job that ends with an output has each of its per-dependency records rewritten on every path (a skipped
+    # job validated against a record under a former id otherwise ends without any record of that dependency and is rebuilt next time)
+    rule_edge_records_rewritten(A, R, "R12.e")
     # R12.s: 'is the output there?' is asked per job id (a multi-output job asked piece by piece is never 'there': rebuilt every time)
     from rules_compare import rule_strategy_asked_by_job_id
     rule_strategy_asked_by_job_id(A, R, "R12.s")
@@ -1547,3 +1550,16 @@ def rule_classify_after_pruning(A, R, rule):
         bad = pruning_order_violations(A, g, fn, "the startup classification")
         R.ob(rule, "%s | the startup classification runs only after unconsumed Ephemerals were pruned" % short(fn), not bad,
              detail="; ".join(bad[:3]), site=A.facts.body(fn).span["s"] if A.facts.body(fn) else "")
+
+
+
+def rule_edge_records_rewritten(A, R, rule):
+    """with both endpoints ending with an output attached (executed, or validly skipped) the per-dependency record is written with
+    the upstream's current output on every path of the edge loop's iteration"""
+    r2 = nh_run(A, "edgea|some", "edge_a", None, histout=1, extra_roles={"edge_b": dict(state=None, histout=1, bools={})})
+    ins = [v for v in out_ops(A, r2) if v["op"] == "insert" and classify_key(v["key"])[0] == "pair"]
+    R.floor(rule, "per-dependency insert with both outputs present", len(ins), 1)
+    for v in ins:
+        o, why = must_in_iteration(A, r2, v)
+        R.ob(rule, "new_history | upstream with an output, downstream ends with an output | the per-dependency record is rewritten on every path", o,
+             detail=why + ": a dependency of a job that is up to date can end without a current record", site=A.site(v))
